@@ -397,6 +397,85 @@ fn histories(acc: &mut Acc, depth: usize) -> usize {
     n
 }
 
+
+/// (iv) The backend's own bookkeeping files live beside the bucket directories, so a *bucket name* can be the name of one
+/// of them. Every object-level operation addressed to (bucket = the name of an existing bookkeeping file, or "." / ".."),
+/// with keys that cancel themselves out ("x/..") or are plain: nothing in the tree may change and nothing may be served.
+fn bookkeeping_named_as_bucket(acc: &mut Acc) -> usize {
+    let st = store();
+    let base = snapshot(&st.top);
+    let mut buckets: Vec<String> = std::fs::read_dir(&st.root).map(|rd| rd.flatten().filter_map(|e| e.file_name().into_string().ok()).filter(|n| n.starts_with('.')).collect()).unwrap_or_default();
+    buckets.sort();
+    buckets.push(".".into());
+    buckets.push("..".into());
+    let keys = ["x/..", "x/y/../..", "./x/..", "x//..", "a/../a/..", "a", ".", ""];
+    let ops = ["get", "head", "put", "delete", "copy-from", "copy-to", "delete-objects", "list"];
+    let mut cases: Vec<(String, &str, &str)> = Vec::new();
+    for b in &buckets {
+        for k in keys {
+            for o in ops {
+                cases.push((b.clone(), k, o));
+            }
+        }
+    }
+    let n = cases.len();
+    // (sequential on one tree: every case must leave it untouched, so no restore is needed unless a violation is found)
+    for (ci, (b, k, op)) in cases.iter().enumerate() {
+        let id = || format!("bookkeeping-as-bucket/{op}/{b:?}/{k:?}");
+        if !acc.selected(&id) {
+            continue;
+        }
+        acc.eval();
+        acc.nontrivial(fnv(id().as_bytes()));
+        let who = Some("alice");
+        let fs = &st.fs;
+        let r = std::panic::catch_unwind(std::panic::AssertUnwindSafe(|| {
+            block_on(async {
+                match *op {
+                    "get" => match fs.get_object(req(GetObjectInput { bucket: b.clone(), key: (*k).into(), ..gen_base() }, who)).await {
+                        Ok(o) => ("ok".to_owned(), read_body(o.output.body).await.unwrap_or_default()),
+                        Err(e) => (e.code().as_str().to_owned(), vec![]),
+                    },
+                    "head" => (code(&fs.head_object(req(HeadObjectInput { bucket: b.clone(), key: (*k).into(), ..gen_base() }, who)).await), vec![]),
+                    "put" => (code(&fs.put_object(req(PutObjectInput { bucket: b.clone(), key: (*k).into(), body: Some(blob_of(b"null", 1)), ..gen_base() }, who)).await), vec![]),
+                    "delete" => (code(&fs.delete_object(req(DeleteObjectInput { bucket: b.clone(), key: (*k).into(), ..gen_base() }, who)).await), vec![]),
+                    "copy-from" => (code(&fs.copy_object(req(CopyObjectInput { bucket: "bucket-a".into(), key: "stolen".into(), copy_source: CopySource::Bucket { bucket: b.as_str().into(), key: (*k).into(), version_id: None }, ..gen_base() }, who)).await), vec![]),
+                    "copy-to" => (code(&fs.copy_object(req(CopyObjectInput { bucket: b.clone(), key: (*k).into(), copy_source: CopySource::Bucket { bucket: "bucket-a".into(), key: "a".into(), version_id: None }, ..gen_base() }, who)).await), vec![]),
+                    "delete-objects" => match fs.delete_objects(req(DeleteObjectsInput { bucket: b.clone(), delete: Delete { objects: vec![ObjectIdentifier { key: (*k).into(), ..gen_base() }], ..gen_base() }, ..gen_base() }, who)).await {
+                        // (S3 reports keys that do not exist as deleted: the answer is not judged, the tree is)
+                        Ok(_) => ("answered".to_owned(), vec![]),
+                        Err(e) => (e.code().as_str().to_owned(), vec![]),
+                    },
+                    _ => match fs.list_objects_v2(req(ListObjectsV2Input { bucket: b.clone(), prefix: Some((*k).into()), ..gen_base() }, who)).await {
+                        Ok(o) => (if o.output.contents.as_ref().is_some_and(|c| !c.is_empty()) { "ok".to_owned() } else { "answered".to_owned() }, format!("{:?}", o.output.contents).into_bytes()),
+                        Err(e) => (e.code().as_str().to_owned(), vec![]),
+                    },
+                }
+            })
+        }));
+        let (code, read) = match r {
+            Ok(x) => x,
+            Err(_) => {
+                acc.fail(&format!("C17/panic/bookkeeping-as-bucket/{op}"), ci as u64, id(), "backend panicked".into(), json!({"bucket": b, "key": k}));
+                ("panic".to_owned(), vec![])
+            }
+        };
+        let after = snapshot(&st.top);
+        let changes = diff(&base, &after);
+        acc.outcome(&format!("bookkeeping file named as bucket: {} / {}", if code == "ok" { "SERVED" } else { "refused" }, if changes.is_empty() { "no change" } else { "CHANGED" }));
+        if code == "ok" {
+            acc.fail(&format!("C17/bookkeeping-served-as-an-object/{op}"), ci as u64, id(), format!("{op} addressed to bucket {b:?} (no bucket: the name of a bookkeeping entry of the root) with key {k:?} succeeded{}", if read.is_empty() { String::new() } else { format!(" and returned {:?}", String::from_utf8_lossy(&read[..read.len().min(120)])) }), json!({"bucket": b, "key": k}));
+        }
+        if !changes.is_empty() {
+            acc.fail(&format!("C17/bookkeeping-changed/as-bucket/{op}"), ci as u64, id(), format!("{op} addressed to bucket {b:?} with key {k:?} ({code}) changed the tree: {}", changes.join("; ")), json!({"bucket": b, "key": k, "changes": changes}));
+            let _ = std::fs::remove_dir_all(&st.root);
+            let _ = std::fs::remove_dir_all(st.top.join("outside"));
+            materialise(&base, &st.top);
+        }
+    }
+    n
+}
+
 pub fn run(ctx: &Ctx) -> (Acc, Report) {
     let mut acc = ctx.acc();
     let keys = hostile_keys(ctx.tier);
@@ -530,10 +609,12 @@ pub fn run(ctx: &Ctx) -> (Acc, Report) {
     // file-system-call granularity, controlled scheduler of C19) of two writers to different objects - the same key in two
     // buckets, the same file name in two directories, two keys - after which each object must hold its own writer's bytes
     let n_histories = if ctx.replay.as_deref().is_none_or(|r| r.starts_with("history/")) { histories(&mut acc, ctx.tier.pick(2, 3)) } else { 0 };
+    let n_bookkeeping = if ctx.replay.as_deref().is_none_or(|r| r.starts_with("bookkeeping-as-bucket/")) { bookkeeping_named_as_bucket(&mut acc) } else { 0 };
+    acc.count("cases_with_a_bookkeeping_file_named_as_the_bucket", n_bookkeeping as u64);
     let concurrent = if ctx.replay.as_deref().is_none_or(|r| r.contains("/schedule=")) { crate::props::c19::cross_object_schedules(&mut acc, "C17") } else { 0 };
     let rep = Report {
         level: "exploration",
-        rule: format!("{n_keys} hostile strings (all sequences of 1..3 segments (thorough: also all 4-segment sequences over the 7 core symbols) over {{a, ., .., empty, bucket-b, bucket-a2, secret, the real metadata file name of another bucket's object, %2e%2e, %2f, outside, sentinel.txt}} joined by '/', with and without a leading '/', plus 4 deep escapes) x 22 operations at the S3 trait (object get/head/put/delete/delete-objects/copy source/copy destination/list prefix/create-multipart/upload-part-copy source/put-then-get-then-delete; legitimate cross-bucket copies - from another bucket's plain or metadata-bearing object to the string as destination key, and from the string as source key in the other bucket by CopyObject and UploadPartCopy - where the source bucket may be read but neither it nor its bookkeeping may change; hostile upload ids for list-parts/complete/abort/upload-part by a foreign identity incl. the victim's real id and its 8-character prefix; hostile bucket names for create/delete/head bucket), and through S3Service::call for GET/PUT/DELETE/copy in literal, fully percent-encoded and %2e%2e spellings; store: three buckets with marked objects and metadata (one sibling's name has the addressed bucket's name as a proper string prefix), one foreign open upload with a marked part, a marked sentinel tree beside and above the root. Oracle: whole-tree snapshot diff (contents and hard-link groups) + marker search in everything read back. Plus all histories of 2 (thorough 3) legitimate put / delete / copy operations across two buckets (keys a, secret, fresh and fresh/in - the last turns 'fresh' into a directory, so that operations fail half-way), judged after every step. Plus every interleaving of two concurrent writers to different objects (same key in two buckets, same file name in two directories, two keys of one bucket). Distinct by id."),
+        rule: format!("{n_keys} hostile strings (all sequences of 1..3 segments (thorough: also all 4-segment sequences over the 7 core symbols) over {{a, ., .., empty, bucket-b, bucket-a2, secret, the real metadata file name of another bucket's object, %2e%2e, %2f, outside, sentinel.txt}} joined by '/', with and without a leading '/', plus 4 deep escapes) x 22 operations at the S3 trait (object get/head/put/delete/delete-objects/copy source/copy destination/list prefix/create-multipart/upload-part-copy source/put-then-get-then-delete; legitimate cross-bucket copies - from another bucket's plain or metadata-bearing object to the string as destination key, and from the string as source key in the other bucket by CopyObject and UploadPartCopy - where the source bucket may be read but neither it nor its bookkeeping may change; hostile upload ids for list-parts/complete/abort/upload-part by a foreign identity incl. the victim's real id and its 8-character prefix; hostile bucket names for create/delete/head bucket), and through S3Service::call for GET/PUT/DELETE/copy in literal, fully percent-encoded and %2e%2e spellings; store: three buckets with marked objects and metadata (one sibling's name has the addressed bucket's name as a proper string prefix), one foreign open upload with a marked part, a marked sentinel tree beside and above the root. Oracle: whole-tree snapshot diff (contents and hard-link groups) + marker search in everything read back. Plus all histories of 2 (thorough 3) legitimate put / delete / copy operations across two buckets (keys a, secret, fresh and fresh/in - the last turns 'fresh' into a directory, so that operations fail half-way), judged after every step. Plus every object-level operation addressed to a 'bucket' that is the name of one of the backend's own bookkeeping files (or . / ..) with self-cancelling and plain keys: nothing served, nothing changed. Plus every interleaving of two concurrent writers to different objects (same key in two buckets, same file name in two directories, two keys of one bucket). Distinct by id."),
         exhaustive: true,
         extra: json!({"hostile_strings": n_keys, "concurrent_writer_schedules": concurrent, "histories_of_legitimate_operations": n_histories, "history_rule": "all sequences of 2 (thorough 3) operations over {put, delete, copy} x {bucket-a, bucket-b} x {a, secret, fresh} (48 operations) on one live tree; after every step the tree differs from the step before only inside the addressed bucket (a copy: its destination) and its own bookkeeping files; snapshots record which paths share an inode"}),
         assumptions: vec!["symbolic links inside the root are not part of the space".into(), "file contents, not mtimes, are compared".into()],
